@@ -1728,6 +1728,65 @@ def deep_equal(a, b):
     return type(a) == type(b) and a == b
 
 
+def dip_value_same(mv, rv):
+    """value as the Lean reader model returns it (floats as {"f": token}) against the value of the real re-parse"""
+    if isinstance(mv, list) or isinstance(rv, list):
+        return (isinstance(mv, list) and isinstance(rv, list) and len(mv) == len(rv)
+                and all(dip_value_same(x, y) for x, y in zip(mv, rv)))
+    if isinstance(mv, bool) or isinstance(rv, bool):
+        return isinstance(mv, bool) and isinstance(rv, bool) and mv == rv
+    if isinstance(mv, dict) and set(mv) != {"s"}:
+        if set(mv) != {"f"} or not isinstance(rv, float):
+            return False
+        try:
+            x = float(mv["f"])
+        except Exception:
+            return False
+        return x == rv or math.isclose(x, rv, rel_tol=1e-9, abs_tol=0.0)
+    if isinstance(mv, dict) and set(mv) == {"s"}:
+        return isinstance(rv, str) and mv["s"] == rv
+    return isinstance(mv, int) and isinstance(rv, int) and mv == rv
+
+
+def judge_dip_reader(ctx, c, m, sel, text, r):
+    """Tie of the Lean model of the DIP node parser (Model/C19Dip.lean: readDip) to the real parser: on every
+    exported text whose nodes are boolean / numeric (scalars and arrays) or scalar strings without '$' that do not end
+    in a backslash (the fragment the reader models and C19_roundtrip_dip_partial is about) the model's reading of the text and the real re-parse must agree on
+    name, kind, precision, value (hence shape) and unit of every parameter, in order.  impl != model here is a
+    broken tie (disagreement), never a violation."""
+    if not text or not sel or m.get("text") != text:
+        return
+    # outside the reader model: arrays of strings, string texts with '$' (place-holders of DIP._determine_node) and
+    # texts ending in a backslash (known finding dip:string-trailing-backslash)
+    if any(p.kind == "str" and (isinstance(p.value, list) or "$" in p.value or p.value.endswith("\\")) for p in sel):
+        return
+    ctx.count("dip-reader-model")
+    if any(p.kind == "str" for p in sel):
+        ctx.count("dip-reader-model.with-string")
+    mr = decode_cp(m.get("read"))
+    ms = decode_cp(m.get("spec"))
+    real = None if r is None else r[1]
+
+    def same(ml, rl):
+        if ml is None or rl is None:
+            return ml is None and rl is None
+        if len(ml) != len(rl):
+            return False
+        for x, q in zip(ml, rl):
+            if (x["name"], x["kind"], x["bits"], x["unit"] or None) != (q.name, q.kind, q.bits, q.unit or None):
+                return False
+            if not dip_value_same(x["value"], q.value):
+                return False
+        return True
+    if not same(mr, real):
+        ctx.disagreement("read:dip", c.replay(),
+                         "reader model %r, real DIP parser %r" % (mr, [q.brief() for q in real] if real is not None else None))
+    elif mr is not None and mr != ms:
+        # both readers agree with each other but not with the parameters that were exported: the per-parameter
+        # comparison below reports it against the real parser; here only the model side is recorded
+        ctx.count("dip-reader-model.differs-from-spec")
+
+
 def judge_dip_case(ctx, c, m, sel, text):
     """DIP text export re-read by the real DIP parser (trusted reader)."""
     r = parse_env(text + "\n") if text else (None, [])
@@ -1743,6 +1802,7 @@ def judge_dip_case(ctx, c, m, sel, text):
                     back.update({q.name: q for q in rr[1]})
     else:
         back = {p.name: p for p in r[1]}
+    judge_dip_reader(ctx, c, m, sel, text, r)
     for p in sel:
         if isinstance(p.value, list):
             q = back.get(p.name) if back else None
